@@ -137,7 +137,7 @@ def run_case(case, helpers):
 
 
 def spec_stream(ctx, out, rng, budget, helpers, trees):
-    n = min(30 * budget, 400)
+    n = min(100 * budget, 1000)
     for _ in range(n):
         case = gen_case(rng, trees, helpers.get("bin_configs", ()))
         prob, info = run_case(case, helpers)
